@@ -330,18 +330,34 @@ def _prune(case, res):
     m = build_model("supervised", case["metric"])
     rec = hooks.Recorder()
 
+    frozen = {}
+
+    def after_predict(rec, args, kwargs, result):
+        # the relevance flags as they stand at the EXIT of a prediction pass: what pruning may retain is decided against these,
+        # not against flags that were touched again between the pass and the re-fit
+        self = args[0]
+        if self.subgraph is not None:
+            frozen[id(self)] = [(np.asarray(nd.features, dtype=float).tobytes().hex(), int(nd.label), int(nd.relevant)) for nd in self.subgraph.nodes]
+
     def before_fit(rec, args, kwargs):
         self = args[0]
         prev = None
         if self.subgraph is not None and self.subgraph.trained:
             prev = [(np.asarray(nd.features, dtype=float).tobytes().hex(), int(nd.label), int(nd.relevant)) for nd in self.subgraph.nodes]
+            snap = frozen.pop(id(self), None)
+            if snap is not None and [t[:2] for t in snap] == [t[:2] for t in prev]:
+                if snap != prev:
+                    rec.add("flags_changed_after_prediction_pass", 1)
+                prev = snap
         Xn = args[1] if len(args) > 1 else kwargs.get("X_train")
         Yn = args[2] if len(args) > 2 else kwargs.get("Y_train")
         rec.add("fit", {"prev": prev, "new": _multiset(Xn, Yn) if len(np.shape(Xn)) == 2 else None, "n": len(Xn)})
 
     np.random.seed(case["rng_seed"])
-    with hooks.patched(rec, [(mv.SupervisedOPF, "fit", before_fit, None)]):
+    with hooks.patched(rec, [(mv.SupervisedOPF, "fit", before_fit, None), (mv.SupervisedOPF, "predict", None, after_predict)]):
         call = safe_call(m.prune, X, Y, V, YV, case["iters"])
+    if rec.of("flags_changed_after_prediction_pass"):
+        res.see("flags_changed_between_prediction_pass_and_refit")
     fits = rec.of("fit")
     if not fits:
         return res.reject("no-fit-observed")
